@@ -6,13 +6,15 @@
 //!   vec      - children in a `Vec<Self>`, via `TreeNodeContainer for Vec<C>` (like the crate's own tests)
 //!   concrete - `impl<T: ConcreteTreeNode> TreeNode for T`
 //!   dyn      - `impl<T: DynTreeNode> TreeNode for Arc<T>`
+//!   tuple    - children in `(Option<Box<Self>>, Vec<Self>, Option<Box<Self>>)`, via the tuple / Option / Box / Vec
+//!              `TreeNodeContainer` impls (visit_sibling / transform_sibling chains), like Expr::Case
 //! Callbacks are data: a table label -> (directive[, new label, reported flag]); every invocation is
 //! logged.  `ok` is the direct oracle: the documented contract evaluated by a linear scan over the full
 //! f_down/f_up bracket sequence (independent of the Coq model).  Shared code: ../c42_shared.rs.
 use std::sync::Arc;
 
 use datafusion_common::tree_node::{
-    ConcreteTreeNode, DynTreeNode, Transformed, TreeNode, TreeNodeContainer,
+    ConcreteTreeNode, DynTreeNode, Transformed, TreeNode, TreeNodeContainer, TreeNodeRefContainer,
 };
 use datafusion_common::Result;
 use h_util::{arg, Rng};
@@ -127,6 +129,63 @@ impl TT for Arc<DNode> {
     }
 }
 
+// ---------------------------------------------------------------- tuple-of-containers implementation
+/// children = first? ++ mid ++ last?;  first is present iff label is odd (and there is a child), last iff
+/// bit 1 of the label is set (and a child is left) -- lib/props/C42.py groups_tuple() mirrors this
+#[derive(Debug, Clone, PartialEq, Default)]
+struct TNode {
+    data: i64,
+    first: Option<Box<TNode>>,
+    mid: Vec<TNode>,
+    last: Option<Box<TNode>>,
+}
+impl TreeNode for TNode {
+    fn apply_children<'n, F: FnMut(&'n Self) -> Result<Tnr>>(&'n self, f: F) -> Result<Tnr> {
+        (&self.first, &self.mid, &self.last).apply_ref_elements(f)
+    }
+    fn map_children<F: FnMut(Self) -> Result<Transformed<Self>>>(self, f: F) -> Result<Transformed<Self>> {
+        let data = self.data;
+        Ok((self.first, self.mid, self.last)
+            .map_elements(f)?
+            .update_data(|(first, mid, last)| TNode { data, first, mid, last }))
+    }
+}
+impl<'a> TreeNodeContainer<'a, Self> for TNode {
+    fn apply_elements<F: FnMut(&'a Self) -> Result<Tnr>>(&'a self, mut f: F) -> Result<Tnr> {
+        f(self)
+    }
+    fn map_elements<F: FnMut(Self) -> Result<Transformed<Self>>>(self, mut f: F) -> Result<Transformed<Self>> {
+        f(self)
+    }
+}
+impl TT for TNode {
+    const IM: &'static str = "tuple";
+    fn build(s: &S) -> Self {
+        let mut cs: Vec<TNode> = s.cs.iter().map(TNode::build).collect();
+        let first = if s.l.rem_euclid(2) == 1 && !cs.is_empty() { Some(Box::new(cs.remove(0))) } else { None };
+        let last = if (s.l.div_euclid(2)).rem_euclid(2) == 1 && !cs.is_empty() { Some(Box::new(cs.pop().unwrap())) } else { None };
+        TNode { data: s.l, first, mid: cs, last }
+    }
+    fn label(&self) -> i64 {
+        self.data
+    }
+    fn relabel(mut self, l: i64) -> Self {
+        self.data = l;
+        self
+    }
+    fn dump(&self) -> S {
+        let mut cs: Vec<S> = vec![];
+        if let Some(f) = &self.first {
+            cs.push(f.dump());
+        }
+        cs.extend(self.mid.iter().map(|c| c.dump()));
+        if let Some(l) = &self.last {
+            cs.push(l.dump());
+        }
+        S { l: self.data, cs }
+    }
+}
+
 fn repo_test_tree() -> S {
     // the tree of the crate's own tests: j(i(f(e(c(b, d(a))), g(h))))   a=1 .. j=10
     let leaf = |l| S { l, cs: vec![] };
@@ -180,6 +239,8 @@ fn main() {
                 case_apply_children::<VNode>(&s, &t);
                 case_apply_children::<CNode>(&s, &t);
                 case_apply_children::<Arc<DNode>>(&s, &t);
+                case_apply::<TNode>(&s, &t);
+                case_apply_children::<TNode>(&s, &t);
                 if size <= 3 {
                     for code2 in 0..3usize.pow(size as u32) {
                         let mut u = VTab::new();
@@ -193,6 +254,11 @@ fn main() {
                         // and reports it, f_up entries are keyed by the label f_down produced
                         let dt: RTab = t.iter().map(|(l, d)| (*l, (l + 100, true, *d))).collect();
                         let ut: RTab = u.iter().map(|(l, d)| (l + 100, (l + 200, true, *d))).collect();
+                        if (code + code2) % 2 == 0 {
+                            case_visit::<TNode>(&s, &t, &u);
+                        } else {
+                            case_trans::<TNode>(if code % 2 == 0 { "rewrite" } else { "down_up" }, &s, &dt, &ut);
+                        }
                         match (code + code2) % 3 {
                             0 => case_trans::<VNode>("down_up", &s, &dt, &ut),
                             1 => case_trans::<CNode>("rewrite", &s, &dt, &ut),
@@ -204,6 +270,7 @@ fn main() {
                         case_trans::<VNode>(m, &s, &dt, &dt);
                         case_trans::<CNode>(m, &s, &dt, &dt);
                         case_trans::<Arc<DNode>>(m, &s, &dt, &dt);
+                        case_trans::<TNode>(m, &s, &dt, &dt);
                     }
                 }
             }
@@ -282,6 +349,13 @@ fn main() {
         case_trans::<VNode>(m, &s, &rd, &ru);
         case_trans::<CNode>(m, &s, &rd, &ru);
         case_trans::<Arc<DNode>>(m, &s, &rd, &ru);
+        case_trans::<TNode>(m, &s, &rd, &ru);
+        case_visit::<TNode>(&s, &dt, &ut);
+        if i % 2 == 0 {
+            case_apply::<TNode>(&s, &dt);
+        } else {
+            case_exists::<TNode>(&s, &hits);
+        }
         match i % 3 {
             0 => case_trans::<VNode>(m2, &s, &rd, &ru),
             1 => case_trans::<CNode>(m2, &s, &rd, &ru),
